@@ -127,16 +127,15 @@ def build():
     log(f"[build] framing-driver built in {time.time() - t0:.1f}s")
 
 
-def run_tlc(cwd, module, cfg, out_path, workers, timeout, seed=None):
-    """Runs TLC with stdout streamed to a file; returns dict(ok, distinct, generated, violation, tail)."""
+def run_tlc(cwd, module, cfg, out_path, workers, timeout, case_file=None):
+    """Runs TLC with stdout streamed to a file.  "CASE ..." lines are decoded, deduplicated and written to
+    case_file; returns dict(ok, distinct, generated, violation, tail, cases)."""
+    import hashlib
     import re
     meta = vlib.workdir(f"framing/meta-{os.getpid()}-{time.time_ns()}")
     env = dict(os.environ)
     env["JAVA_TOOL_OPTIONS"] = "-Xss1g -Xmx8g"
-    cmd = ["tlc", "-workers", str(workers), "-metadir", meta, "-cleanup", "-noGenerateSpecTE", "-config", cfg]
-    if seed is not None:
-        cmd += ["-seed", str(seed)]
-    cmd.append(module)
+    cmd = ["tlc", "-workers", str(workers), "-metadir", meta, "-cleanup", "-noGenerateSpecTE", "-config", cfg, module]
     t0 = time.time()
     with open(out_path, "w") as f:
         try:
@@ -146,13 +145,28 @@ def run_tlc(cwd, module, cfg, out_path, workers, timeout, seed=None):
             raise vlib.ToolError(f"TLC timed out on {cfg}")
     shutil.rmtree(meta, ignore_errors=True)
     other = []
-    cases = []
-    with open(out_path) as f:
+    seen = set()
+    ncases = 0
+    cf = open(case_file, "w") if case_file else None
+    with open(out_path, errors="replace") as f:
         for line in f:
             if line.startswith('"CASE '):
-                cases.append(line)
-            else:
+                if cf is None:
+                    continue
+                try:
+                    c = json.loads(line)[5:]
+                except Exception:
+                    continue
+                h = hashlib.md5(c.encode()).digest()
+                if h not in seen:
+                    seen.add(h)
+                    cf.write(c + "\n")
+                    ncases += 1
+            elif len(other) < 20000:
                 other.append(line)
+    if cf:
+        cf.close()
+    os.remove(out_path)
     text = "".join(other)
     gen = re.search(r"(\d+) states generated, (\d+) distinct states found, (\d+) states left on queue", text)
     violated = re.search(r"Error: Invariant (\S+) is violated", text)
@@ -166,11 +180,31 @@ def run_tlc(cwd, module, cfg, out_path, workers, timeout, seed=None):
     return dict(ok=violated is None, generated=int(gen.group(1)) if gen else 0, distinct=int(gen.group(2)) if gen else 0,
                 left=int(gen.group(3)) if gen else -1, depth=int(depth.group(1)) if depth else None,
                 violation=violated.group(0) if violated else None, tail=text[-6000:] if violated else "",
-                wall_s=round(time.time() - t0, 1), case_lines=cases)
+                wall_s=round(time.time() - t0, 1), cases=ncases)
+
+
+def nth_line(path, no):
+    with open(path) as f:
+        for i, line in enumerate(f):
+            if i == no:
+                return json.loads(line)
+    return None
+
+
+def run_dir(sub):
+    """Work directory of this run (removed at the end); with the development hook VERIF_FRAMING_REUSE a fixed one."""
+    if os.environ.get("VERIF_FRAMING_REUSE") or os.environ.get("VERIF_FRAMING_KEEP"):
+        return vlib.workdir(f"framing/{sub}")
+    return vlib.workdir(f"framing/run-{os.getpid()}/{sub}")
+
+
+def cleanup():
+    if not (os.environ.get("VERIF_FRAMING_REUSE") or os.environ.get("VERIF_FRAMING_KEEP")):
+        shutil.rmtree(os.path.join(vlib.WORK, f"framing/run-{os.getpid()}"), ignore_errors=True)
 
 
 def gen_dir():
-    d = vlib.workdir("framing/gen")
+    d = run_dir("gen")
     for f in ("Framing.tla", "FramingObs.tla"):
         shutil.copy(os.path.join(vlib.SPEC, f), os.path.join(d, f))
     return d
@@ -189,20 +223,6 @@ def write_generator(d, g):
                 f"  ChunkMode = \"{g['chunk']}\"\n  MaxChunks = {g['max_chunks']}\n  Bounded = TRUE\n  MaxCalls = {g['max_calls']}\n"
                 f"  MaxFaults = {g['max_faults']}\n  Emit = TRUE\nINVARIANTS {g['inv']} EmitCases\nCHECK_DEADLOCK FALSE\n")
     return name
-
-
-def parse_cases(lines):
-    seen = set()
-    out = []
-    for line in lines:
-        try:
-            s = json.loads(line)[5:]
-        except Exception:
-            continue
-        if s not in seen:
-            seen.add(s)
-            out.append(s)
-    return out
 
 
 def driver(args, timeout=3000):
@@ -264,19 +284,17 @@ def generator_job(d, g, tier, seed):
     """TLC enumerates the behaviours of one generator; the driver replays them on the real code (twice: all
     cases, keeping the traces of those that differ; and a sample with all traces for the observer)."""
     name = write_generator(d, g)
-    if os.environ.get("VERIF_FRAMING_REUSE") and os.path.exists(os.path.join(d, name + ".cases")):
+    case_file = os.path.join(d, name + ".cases")
+    if os.environ.get("VERIF_FRAMING_REUSE") and os.path.exists(case_file):
         # development hook: skip TLC, replay the cases of the previous run
-        res = dict(ok=True, distinct=0, generated=0, left=0, wall_s=0, case_lines=[json.dumps("CASE " + l.strip()) for l in open(os.path.join(d, name + ".cases")) if l.strip()])
+        res = dict(ok=True, distinct=0, generated=0, left=0, wall_s=0, cases=sum(1 for _ in open(case_file)))
     else:
-        res = run_tlc(d, name + ".tla", name + ".cfg", os.path.join(d, name + ".out"), workers=4, timeout=2400)
+        res = run_tlc(d, name + ".tla", name + ".cfg", os.path.join(d, name + ".out"), workers=4, timeout=2400, case_file=case_file)
     if not res["ok"]:
         return ("gen", g, name, res, None, None, None, None)
-    cases = parse_cases(res.pop("case_lines"))
-    if not cases:
+    ncases = res["cases"]
+    if not ncases:
         raise vlib.ToolError(f"generator {g['name']} produced no case")
-    case_file = os.path.join(d, name + ".cases")
-    with open(case_file, "w") as f:
-        f.write("\n".join(cases) + "\n")
     trace = os.path.join(d, name + ".real.ndjson")
     summ = driver(["replay", "--cases", case_file, "--traces", trace])
     if "hang" in summ:
@@ -286,15 +304,18 @@ def generator_job(d, g, tier, seed):
         with open(trace + ".idx", "w") as f:
             f.write(json.dumps(dict(case=h["case"], first_record=1, records=len(h["real"]), first_mismatch=len(h["real"]) - 1, stopped="hang")) + "\n")
         summ = dict(cases=h["case"] + 1, events=0, mismatching_cases=1, nontrivial_cases=0)
-        return ("gen", g, name, res, cases, summ, trace, None)
+        return ("gen", g, name, res, case_file, summ, trace, None)
     # cross-check of the fast path: a sample of the cases is judged by the observer whether or not it agrees
-    step = max(1, len(cases) // (150 if tier == "quick" else 1200))
+    step = max(1, ncases // (150 if tier == "quick" else 1200))
+    start = (seed + g["max_calls"]) % step
     sample_file = os.path.join(d, name + ".sample.cases")
-    with open(sample_file, "w") as f:
-        f.write("\n".join(cases[(seed + g["max_calls"]) % step::step]) + "\n")
+    with open(sample_file, "w") as f, open(case_file) as cf:
+        for i, line in enumerate(cf):
+            if i % step == start:
+                f.write(line)
     strace = os.path.join(d, name + ".sample.ndjson")
     s2 = driver(["replay", "--cases", sample_file, "--traces", strace, "--all-traces"])
-    return ("gen", g, name, res, cases, summ, trace, strace if "hang" not in s2 else None)
+    return ("gen", g, name, res, case_file, summ, trace, strace if "hang" not in s2 else None)
 
 
 def model_check_and_replay(tier, seed, verdict, cov, drifts, samples):
@@ -317,16 +338,16 @@ def model_check_and_replay(tier, seed, verdict, cov, drifts, samples):
             if not res["ok"]:
                 verdict.violation(f"design check {cfg}: {res['violation']}", dict(kind="tlc-mc", config=cfg, module="MC_Framing.tla", output_tail=res["raw"][-6000:]))
             continue
-        _, g, name, res, cases, summ, trace, strace = r
+        _, g, name, res, case_file, summ, trace, strace = r
         cov["states"] += res["distinct"]
         cov["transitions"] += res["generated"]
         if not res["ok"]:
             verdict.violation(f"generator {g['name']}: {res['violation']}", dict(kind="tlc-gen", generator=g, output_tail=res["tail"]))
             continue
         cov["mc"].append(dict(config=name + ".cfg", kind="case generator (real constants, exhaustive within its bounds)", distinct=res["distinct"],
-                              generated=res["generated"], complete=res["left"] == 0, wall_s=res["wall_s"], cases=len(cases),
+                              generated=res["generated"], complete=res["left"] == 0, wall_s=res["wall_s"], cases=res["cases"],
                               replayed=summ["cases"], differing=summ["mismatching_cases"]))
-        log(f"[gen] {g['name']}: {res['distinct']} states, {len(cases)} cases in {res['wall_s']}s; replayed {summ['cases']} on the real code, "
+        log(f"[gen] {g['name']}: {res['distinct']} states, {res['cases']} cases in {res['wall_s']}s; replayed {summ['cases']} on the real code, "
             f"{summ['mismatching_cases']} differ from the prediction")
         cov["cases_replayed"] += summ["cases"]
         cov["events_replayed"] += summ.get("events", 0)
@@ -338,9 +359,9 @@ def model_check_and_replay(tier, seed, verdict, cov, drifts, samples):
         cov["single_byte_feeds"] += summ.get("single_byte_feeds", 0)
         cov["panics"] += summ.get("panics", 0)
         if len(samples) < 8:
-            samples.append(dict(generator=g["name"], case=json.loads(cases[len(cases) // 2])))
+            samples.append(dict(generator=g["name"], case=nth_line(case_file, res["cases"] // 2)))
         if summ["mismatching_cases"]:
-            judge(verdict, cov, g["name"], trace, lambda no, cases=cases: json.loads(cases[no]) if 0 <= no < len(cases) else None, drifts)
+            judge(verdict, cov, g["name"], trace, lambda no, case_file=case_file: nth_line(case_file, no), drifts)
         if strace:
             sample_traces.append((g["name"], strace))
     return sample_traces
@@ -368,7 +389,7 @@ def merge_traces(parts, out):
 def random_behaviours(tier, seed, verdict, cov, drifts, samples, sample_traces):
     """Seeded open-loop behaviours on the real code; every one of them, and the sampled TLC cases, are judged by
     the observer in one TLC run."""
-    d = vlib.workdir("framing/random")
+    d = run_dir("random")
     count = 400 if tier == "quick" else 6000
     trace = os.path.join(d, f"random-{seed}.ndjson")
     args = ["random", "--seed", seed, "--count", count, "--max-frame", 204800, "--traces", trace]
@@ -415,7 +436,7 @@ def selftest(seed, verdict, cov, drifts):
     corrupted (pure specification, independent of the code under test); (2) one corrupted prediction makes the
     comparison with the real code fail.  If the real code disagrees with the hand-written cases themselves, that is
     data for the observer (VIOLATION or DRIFT), not a tool error."""
-    d = vlib.workdir("framing/selftest")
+    d = run_dir("selftest")
     ok = {}
     case = {"ev": [{"t": "reset", "m": "pk", "in": [5, 22], "out": []}, {"t": "ext", "n": 4}, {"t": "nxt", "f": 0}, {"t": "spw", "n": 2}, {"t": "nxt", "f": 1},
                    {"t": "nxt", "f": 0}, {"t": "ext", "n": 21}, {"t": "nxt", "f": 2}, {"t": "nxt", "f": 0}]}
@@ -483,6 +504,7 @@ def run(prop, tier, seed):
     sample_traces = model_check_and_replay(tier, seed, verdict, cov, drifts, samples)
     random_behaviours(tier, seed, verdict, cov, drifts, samples, sample_traces)
     finish(prop, tier, seed, verdict, cov, drifts, samples, t0)
+    cleanup()
     return verdict
 
 
@@ -532,11 +554,12 @@ def replay(prop, path, seed):
         res = run_tlc(d, name + ".tla", name + ".cfg", os.path.join(d, name + ".out"), workers=8, timeout=2400)
         if not res["ok"]:
             verdict.violation(f"generator {payload['generator']['name']}: {res['violation']}", dict(payload, output_tail=res["tail"]))
+        cleanup()
         return verdict
     case = payload.get("case")
     if not case:
         raise vlib.ToolError("replay file without a case")
-    d = vlib.workdir("framing/replay")
+    d = run_dir("replay")
     cf = os.path.join(d, "case.cases")
     with open(cf, "w") as f:
         f.write(json.dumps(case) + "\n")
@@ -550,4 +573,5 @@ def replay(prop, path, seed):
     cov = new_cov()
     judge(verdict, cov, "replay of " + os.path.basename(path), trace, lambda no: case, [])
     log(f"[replay] {summ.get('events', 0)} events re-executed on the real code, {verdict.violations} violation(s)")
+    cleanup()
     return verdict
